@@ -1,6 +1,7 @@
 """C03 - the reported outcome is sound: success means nothing raised; failures never masked."""
 
 import itertools
+import unittest
 
 from .. import progen, programs, recorders
 
@@ -274,8 +275,79 @@ def x_runtest_reuse(ctx, case):
     return True
 
 
+def x_deferred_forms(ctx, case):
+    """The Deferred runners: what a stage hands back in the ways Twisted code does - an `async def` stage, a
+    returned Failure, a Deferred subclass, an expectation failing after an earlier stage waited on an unfired
+    Deferred - is mapped like the same thing raised directly."""
+    import testtools
+    from twisted.internet import defer
+    from twisted.python.failure import Failure
+    from testtools.twistedsupport import SynchronousDeferredRunTest, AsynchronousDeferredRunTest
+    from testtools.matchers import Equals
+    from .. import vreactor
+    kind, shape, stage, runner = case["kind"], case["shape"], case["stage"], case["runner"]
+    reactor = vreactor.make_reactor()
+    factory = SynchronousDeferredRunTest if runner == "sync" else \
+        AsynchronousDeferredRunTest.make_factory(reactor=reactor, timeout=30, store_twisted_logs=False)
+
+    def make_exc():
+        return {"fail": AssertionError("F"), "error": ValueError("E"), "skip": unittest.SkipTest("S")}[kind]
+
+    def behave(self):
+        if shape == "coroutine":
+            async def co():
+                if kind == "expect":
+                    self.expectThat(1, Equals(2))
+                    return None
+                raise make_exc()
+            return co()
+        if shape == "returned_failure":
+            try:
+                raise make_exc()
+            except Exception:
+                return Failure()
+        if shape == "expect_after_wait":
+            self.expectThat(1, Equals(2))
+            return None
+        raise AssertionError(shape)
+
+    class T(testtools.TestCase):
+        run_tests_with = factory
+
+        def setUp(self):
+            super().setUp()
+            if stage == "cleanup":
+                self.addCleanup(behave, self)
+            if shape == "expect_after_wait":
+                d = defer.Deferred()            # an earlier stage waits on a Deferred that fires later
+                reactor.callLater(0.5, d.callback, None)
+                return d
+            if stage == "setUp":
+                return behave(self)
+
+        def test(self):
+            if stage == "test":
+                return behave(self)
+
+        def tearDown(self):
+            super().tearDown()
+            if stage == "tearDown":
+                return behave(self)
+    log = recorders.Log()
+    propagated = None
+    try:
+        T("test").run(recorders.ExtRecorder(log))
+    except BaseException as e:  # noqa
+        propagated = e
+    outs = [n for n in log.names() if n in recorders.OUTCOMES]
+    want = {"fail": "addFailure", "error": "addError", "skip": "addSkip", "expect": "addFailure"}[kind]
+    ctx.check(outs == [want] and propagated is None, "single.outcome-is-mapped-one",
+              lambda: {"case": case, "got": outs, "want": want, "propagated": repr(propagated)})
+    return True
+
+
 SUBCHECKS = {"prog": x_prog, "twin": x_twin, "xfail_decor": x_xfail_decor, "forced_rerun": x_forced_rerun,
-             "runtest_reuse": x_runtest_reuse}
+             "runtest_reuse": x_runtest_reuse, "deferred_forms": x_deferred_forms}
 
 FEATURES = ("own_exc", "expect", "force", "decor", "noupcall", "nested_cleanup", "handlers", "late_handler",
             "truthy_return", "base_handler", "eq_exc")
@@ -317,6 +389,20 @@ def run(ctx):
                                 ctx.execute("prog", {"placed": placed, "extra": {"handlers": [[exc, report, 0]]}})
     ctx.note_space("a custom exception (Exception- and BaseException-derived) with a user handler reporting skip / "
                    "xfail / failure / error, before or after a failure / error: 2 x 4 x 10 stage pairs x 2 x 2", n)
+    n = 0
+    for runner in ("sync", "async"):
+        for stage in ("setUp", "test", "tearDown", "cleanup"):
+            for shape in ("coroutine", "returned_failure"):
+                for kind in ("fail", "error", "skip") + (("expect",) if shape == "coroutine" else ()):
+                    if ctx.mine():
+                        n += 1
+                        ctx.execute("deferred_forms", {"runner": runner, "stage": stage, "shape": shape, "kind": kind})
+    for stage in ("test", "tearDown", "cleanup"):
+        if ctx.mine():
+            n += 1
+            ctx.execute("deferred_forms", {"runner": "async", "stage": stage, "shape": "expect_after_wait", "kind": "expect"})
+    ctx.note_space("Deferred runners: async-def stages and returned Failures (2 runners x 4 stages x 7), an expectation "
+                   "failing after setUp waited on an unfired Deferred (3)", n)
     n = 0
     for i, s1 in enumerate(STAGES):
         for s2 in STAGES[i + 1:]:
